@@ -89,7 +89,7 @@ theorem C11_main_error_reported (step : T → Action T V E) (b : Nat) (r : Runti
   · have hdn' : (runN step b r).doneNow = false := by simpa using hdn
     have hq := h3 hdn'
     obtain ⟨m, hmq, _, hg⟩ := tryGetMain_queued _ hq.main
-    have hmd := hq.noDone.1 m hmq
+    have hmd := gone_done (hq.noDone.1 m hmq)
     have hst : (runN step b r).status = updateStatus (runN step b r).rt := by
       unfold runN at hdn' ⊢; simp only at hdn' ⊢; split <;> simp_all
     rw [hst]
@@ -118,7 +118,7 @@ theorem C11_error_kind_from_instruction (step : T → Action T V E) (r : Runtime
 
 /-- **Priority of the status** (`update_status_helper`): the main thread's pending host call or error
     first; only when the main thread is merely out of steps does another thread's pending call show. -/
-theorem C11_status_priority (r : Runtime T V E) (m : Thread T E) (h : tryGetMain r = some m) (hd : m.done = false) :
+theorem C11_status_priority (r : Runtime T V E) (m : Thread T E) (h : tryGetMain r = some m) (hd : m.gone = false) :
     updateStatus r =
       match m.pending, m.err with
       | some _, _ => .pendingHost
@@ -126,7 +126,7 @@ theorem C11_status_priority (r : Runtime T V E) (m : Thread T E) (h : tryGetMain
       | none, none => if r.runQueue.any (fun t => t.pending.isSome) then .pendingHost else .outOfSteps := by
   unfold updateStatus
   rw [h]
-  simp only [Thread.status, hd]
+  simp only [Thread.status, gone_done hd]
   cases m.pending <;> cases m.err <;> simp [anyPending]
 
 end Abra.Sched
@@ -172,12 +172,12 @@ theorem run_pushes (prog : List Instr) (n : Nat) (args : List Int) :
       have hhost' : prog[pc]? = some (.hostFunc n) := by simpa using hhost
       simp [stepI, hst, hhost']
     have h1 := runN_one_exact (stepI prog) r m hn hq hc
-    simp only [exec, hstep, finishThreadTurn, canRun_done hc, hn, drainNewThreads, drainAux,
+    simp only [exec, hstep, finishThreadTurn, canRun_done' hc, hmain, hn, drainNewThreads, drainAux, Bool.not_true, Bool.false_and,
       Bool.and_false, Bool.false_eq_true, if_false, List.nil_append] at h1
     rw [runN_add (stepI prog) 1 b' r hd, h1]
     simp only [Bool.false_eq_true, if_false]
-    rw [runN_stuck (stepI prog) b' _ (by refine ⟨rfl, ?_⟩; simp [Thread.canRun, canRun_done hc])]
-    simp [updateStatus, tryGetMain, hmain, Thread.status, canRun_done hc]
+    rw [runN_stuck (stepI prog) b' _ (by refine ⟨rfl, ?_⟩; simp [Thread.canRun, Thread.gone, canRun_done' hc, hmain])]
+    simp [updateStatus, tryGetMain, hmain, Thread.status, canRun_done' hc]
   | cons a args ih =>
     intro S pc b r m hq hn hc hmain hst hargs hhost hb
     obtain ⟨b', rfl⟩ : ∃ b', b = 1 + b' := ⟨b - 1, by simp at hb; omega⟩
@@ -187,13 +187,13 @@ theorem run_pushes (prog : List Instr) (n : Nat) (args : List Int) :
       simp at this
       simp [stepI, hst, this]
     have h1 := runN_one_exact (stepI prog) r m hn hq hc
-    simp only [exec, hstep, finishThreadTurn, canRun_done hc, hn, drainNewThreads, drainAux,
+    simp only [exec, hstep, finishThreadTurn, canRun_done' hc, hmain, hn, drainNewThreads, drainAux, Bool.not_true, Bool.false_and,
       Bool.and_false, Bool.false_eq_true, if_false, List.nil_append] at h1
     rw [runN_add (stepI prog) 1 b' r hd]
     have hdn : (runN (stepI prog) 1 r).doneNow = false := by rw [h1]
     have hs1 : (runN (stepI prog) 1 r).steps = 1 := by rw [h1]
     have hq' : (runN (stepI prog) 1 r).rt.runQueue = [{ m with st := ⟨pc + 1, S ++ [a]⟩ }] := by
-      rw [h1]; simp [canRun_done hc]
+      rw [h1]; simp [canRun_done' hc, hmain]
     have hn' : (runN (stepI prog) 1 r).rt.newThreads = [] := by rw [h1]
     simp only [hdn, Bool.false_eq_true, if_false, hs1]
     have hc' : ({ m with st := (⟨pc + 1, S ++ [a]⟩ : St) } : Thread St String).canRun = true := by
